@@ -201,15 +201,38 @@ __CPROVER_ensures(((xv_acq.ctx[0] == ssl_ctx && xv_acq.cnt[0] == 1) || (xv_acq.c
 #define ITEM_TYPE_OK(i) ((i)->type == item_type_none || (i)->type == item_type_file || (i)->type == item_type_value)
 #define XV_DG_ASSIGNS xv_DG
 
+
+/* do_hash_file: the designation of a FILE fed to the digest is path + (dev, ino, size, mtime sec, mtime nsec) of lstat(),
+ * and, if that is a symbolic link, the same again for stat() (one level followed): 6 or 12 digest updates; the errno of a
+ * failed (l)stat is not left behind (saved and restored) */
+static int do_hash_file(const char *file, EVP_MD_CTX *ctx, bool follow, void *log_ref)
+__CPROVER_requires(__CPROVER_r_ok(file, 1) && __CPROVER_r_ok(ctx, 1) && xv_dg_len <= XV_DG_MAX)
+__CPROVER_assigns(XV_DG_ASSIGNS, xv_errno)
+__CPROVER_ensures(__CPROVER_return_value == 0 || __CPROVER_return_value == -1)
+/* PO[C18] do_hash_file.errno_of_stat_not_left_behind */
+__CPROVER_ensures(xv_errno == __CPROVER_old(xv_errno))
+/* PO[C18] do_hash_file.one_symlink_level_followed */
+__CPROVER_ensures(follow ==> (xv_stat_calls == __CPROVER_old(xv_stat_calls) + 1 && xv_lstat_calls == __CPROVER_old(xv_lstat_calls)))
+__CPROVER_ensures(!follow ==> (xv_lstat_calls == __CPROVER_old(xv_lstat_calls) + 1 && (xv_stat_calls == __CPROVER_old(xv_stat_calls) || xv_stat_calls == __CPROVER_old(xv_stat_calls) + 1)))
+/* PO[C18] do_hash_file.path_and_five_metadata_fields_per_stat */
+__CPROVER_ensures((__CPROVER_return_value == 0 && follow) ==> xv_dg_updates == __CPROVER_old(xv_dg_updates) + 6)
+__CPROVER_ensures((__CPROVER_return_value == 0 && !follow) ==> xv_dg_updates == __CPROVER_old(xv_dg_updates) + 6 * (1 + (xv_stat_calls - __CPROVER_old(xv_stat_calls))))
+__CPROVER_ensures(xv_dg_len <= XV_DG_MAX)
+;
+
 /* hash_item: feeds the designation of ONE item to the digest; does not touch errno (stat's errno is restored);
  * nothing is fed for an unset item; fails only for a file that cannot be stat()ed */
 static int hash_item(const struct item *item, EVP_MD_CTX *ctx, void *log_ref)
 __CPROVER_requires(__CPROVER_r_ok(item, sizeof(struct item)) && ITEM_TYPE_OK(item) && (item->type != item_type_none ==> __CPROVER_r_ok(item->data, 1)))
-__CPROVER_requires(__CPROVER_r_ok(ctx, 1) && XV_LIVE_OK(xv_dg_updates) && XV_LIVE_OK(xv_stat_calls) && XV_LIVE_OK(xv_lstat_calls) && xv_dg_len <= XV_DG_MAX)
-__CPROVER_assigns(XV_DG_ASSIGNS)
+__CPROVER_requires(__CPROVER_r_ok(ctx, 1) && xv_dg_len <= XV_DG_MAX)
+__CPROVER_assigns(XV_DG_ASSIGNS, xv_errno)
 __CPROVER_ensures(__CPROVER_return_value == 0 || (__CPROVER_return_value == -1 && item->type == item_type_file))
+/* PO[C18] hash_item.errno_untouched */
+__CPROVER_ensures(xv_errno == __CPROVER_old(xv_errno))
+/* PO[C18] hash_item.value_item_feeds_its_bytes_in_one_update */
+__CPROVER_ensures(item->type == item_type_value ==> (__CPROVER_return_value == 0 && xv_dg_updates == __CPROVER_old(xv_dg_updates) + 1))
 __CPROVER_ensures(item->type == item_type_none ==> (xv_dg_updates == __CPROVER_old(xv_dg_updates) && xv_dg_len == __CPROVER_old(xv_dg_len)))
-__CPROVER_ensures(xv_dg_updates >= __CPROVER_old(xv_dg_updates) && XV_LIVE_OK(xv_dg_updates) && XV_LIVE_OK(xv_stat_calls) && XV_LIVE_OK(xv_lstat_calls) && xv_dg_len <= XV_DG_MAX)
+__CPROVER_ensures(xv_dg_len <= XV_DG_MAX)
 ;
 
 
@@ -224,8 +247,10 @@ __CPROVER_ensures(xv_dg_updates >= __CPROVER_old(xv_dg_updates) && XV_LIVE_OK(xv
 #define XV_MD_ASSIGNS xv_MD
 static int get_credentials_hash(const struct item *cert, const struct item *key, const struct item *tc, const struct item *crl, uint8_t *hash, void *log_ref)
 __CPROVER_requires(XV_GCH_ITEM(cert) && XV_GCH_ITEM(key) && XV_GCH_ITEM(tc) && XV_GCH_ITEM(crl) && __CPROVER_w_ok(hash, 32))
-__CPROVER_requires(XV_LIVE_OK(xv_mdctx_live) && XV_LIVE_OK(xv_md_calls) && XV_LIVE_OK(xv_dg_updates) && XV_LIVE_OK(xv_stat_calls) && XV_LIVE_OK(xv_lstat_calls) && xv_dg_len <= XV_DG_MAX)
-__CPROVER_assigns(__CPROVER_object_upto(hash, 32), XV_MD_ASSIGNS, XV_DG_ASSIGNS)
+__CPROVER_requires(XV_LIVE_OK2(xv_mdctx_live) && XV_LIVE_OK2(xv_md_calls))
+__CPROVER_assigns(__CPROVER_object_upto(hash, 32), XV_MD_ASSIGNS, XV_DG_ASSIGNS, xv_mdctx_live, xv_errno)
+/* PO[C18] get_credentials_hash.errno_untouched */
+__CPROVER_ensures(xv_errno == __CPROVER_old(xv_errno))
 __CPROVER_ensures(__CPROVER_return_value == 0 || __CPROVER_return_value == -1)
 /* PO[C08] get_credentials_hash.no_digest_context_leaked */
 __CPROVER_ensures(xv_mdctx_live == __CPROVER_old(xv_mdctx_live))
@@ -236,7 +261,6 @@ __CPROVER_ensures(__CPROVER_return_value == 0 ==> (xv_ld_since_md == 0 && xv_ld_
 __CPROVER_ensures(__CPROVER_return_value == -1 ==> (xv_md_calls == __CPROVER_old(xv_md_calls) && xv_ld_since_md == __CPROVER_old(xv_ld_since_md)))
 /* PO[C18] get_credentials_hash.fails_only_if_a_designated_file_cannot_be_examined */
 __CPROVER_ensures(__CPROVER_return_value == -1 ==> (cert->type == item_type_file || key->type == item_type_file || tc->type == item_type_file || crl->type == item_type_file))
-__CPROVER_ensures(XV_LIVE_OK(xv_dg_updates) && XV_LIVE_OK(xv_stat_calls) && XV_LIVE_OK(xv_lstat_calls) && xv_dg_len <= XV_DG_MAX)
 ;
 
 /* load_ssl_ctx: C18 "unreadable, malformed or mismatching material fails with EPROTO"; C08 no SSL_CTX is leaked on the
@@ -268,6 +292,11 @@ XV_LSC_ENSURES
 #ifndef XV_MD_FRESH
 #define XV_MD_FRESH 3   /* digests of one call that may differ from their predecessor: bounds the retry loop (job parameter) */
 #endif
+#ifdef XV_GET_SMALL   /* job parameter: smaller configuration space for the two-pass variant */
+#define XV_GET_EXTRA (tc->type == item_type_none && crl->type == item_type_none)
+#else
+#define XV_GET_EXTRA 1
+#endif
 #define XV_ITEM_FRESH(i) (__CPROVER_is_fresh((i), sizeof(struct item)))
 #define XV_ITEM_DATA(i) (ITEM_TYPE_OK(i) && ((i)->type != item_type_none ==> __CPROVER_is_fresh((i)->data, XV_VAL)) && ((i)->type != item_type_none ==> (i)->data[XV_VAL - 1] == 0))
 #define XV_ISSET(i) ((i)->type != item_type_none ? 1 : 0)
@@ -276,10 +305,10 @@ XV_LSC_ENSURES
 #define XV_GET_NEW(r) ((r) != NULL && !XV_GET_HIT0(r) && !XV_GET_HIT1(r))
 SSL_CTX *ctx_store_get_ctx(const struct item *cert, const struct item *key, const struct item *tc, const struct item *crl, void *log_ref)
 __CPROVER_requires(XV_ITEM_FRESH(cert) && XV_ITEM_FRESH(key) && XV_ITEM_FRESH(tc) && XV_ITEM_FRESH(crl))
-__CPROVER_requires(XV_ITEM_DATA(cert) && XV_ITEM_DATA(key) && XV_ITEM_DATA(tc) && XV_ITEM_DATA(crl) && cert->type != item_type_none && key->type != item_type_none)
+__CPROVER_requires(XV_ITEM_DATA(cert) && XV_ITEM_DATA(key) && XV_ITEM_DATA(tc) && XV_ITEM_DATA(crl) && cert->type != item_type_none && key->type != item_type_none && XV_GET_EXTRA)
 __CPROVER_requires(!xv_lk_held && XV_LK_CNT_OK && cache.entries.lh_first == xv_cs_shadow && xv_cachep == &cache && xv_hj < 32)
 __CPROVER_requires(XV_LIVE_OK(xv_heap_live) && XV_LIVE_OK(xv_ctx_live) && XV_LIVE_OK(xv_ctxfree_calls) && xv_ctx_dead == NULL && XV_LIVE_OK(xv_mdctx_live) && XV_LIVE_OK(xv_md_calls) && \
-                   XV_LIVE_OK(xv_ld_calls) && XV_LIVE_OK(xv_dg_updates) && XV_LIVE_OK(xv_stat_calls) && XV_LIVE_OK(xv_lstat_calls) && xv_dg_len <= XV_DG_MAX && XV_LSC_GHOST_OK && \
+                   XV_LIVE_OK(xv_ld_calls) && XV_LSC_GHOST_OK && \
                    xv_ld_since_md >= 0 && xv_ld_since_md < 1000 && xv_md_settle == xv_md_calls + XV_MD_FRESH && xv_snprintf_calls >= 0 && xv_snprintf_calls < 1000000)
 __CPROVER_assigns(XV_LK_ASSIGNS, XV_CS_ASSIGNS, xv_errno, xv_heap_live, XV_CX_ASSIGNS, XV_LSC_ASSIGNS, XV_DG_ASSIGNS, \
                   xv_mdctx_live, XV_MD_ASSIGNS, xv_LD, xv_SNP)
